@@ -51,10 +51,10 @@ def _read_conf(name):
     return _conf_text_cache[path]
 
 
-def make_config(root, kind="shipped", **overrides):
+def make_config(root, kind="shipped", cls=None, **overrides):
     """kind: 'shipped' = conf/pygopherd.conf as is; 'full' = conf/local.conf (TAL, PYG, Exec, ZIP,
     Compressed, URLTypeRewriter).  overrides: 'section.option'-keyed or bare [pygopherd] options."""
-    config = configparser.ConfigParser()
+    config = (cls or configparser.ConfigParser)()
     config.read_string(_read_conf("pygopherd.conf" if kind == "shipped" else "local.conf"))
     config.set("pygopherd", "root", root)
     config.set("pygopherd", "mimetypes", os.path.join(REPO, "conf", "mime.types"))
